@@ -27,11 +27,14 @@ Definition dom (i : input) : bool := let '(cfg, ops) := i in cfg_ok cfg && ops_o
 Definition failures (i : input) (o : observation) : list (N * N) :=
   let '(cfg, ops) := i in spec_failures cfg ops o.
 
-(* ---- comparison: the datagrams of one step as a multiset ---- *)
+(* ---- comparison: the datagrams of one step as a multiset.  Which entry of the table an ssdp:alive carries at
+   which tick (and hence its acceptance flag) is not compared (the property fixes the round, not its order):
+   clauses 3-5 judge that on the implementation's datagrams directly. ---- *)
 Definition dgram_eqb (a b : dgram) : bool :=
-  (g_time a =? g_time b)%Z && (g_kind a =? g_kind b) && str_eqb (g_type a) (g_type b) &&
-  str_eqb (g_nts a) (g_nts b) && str_eqb (g_usn a) (g_usn b) && str_eqb (g_loc a) (g_loc b) &&
-  (g_dest a =? g_dest b) && Bool.eqb (g_acc a) (g_acc b).
+  (g_time a =? g_time b)%Z && (g_kind a =? g_kind b) &&
+  (is_alive a && is_alive b ||
+   str_eqb (g_type a) (g_type b) && str_eqb (g_usn a) (g_usn b) && Bool.eqb (g_acc a) (g_acc b)) &&
+  str_eqb (g_nts a) (g_nts b) && str_eqb (g_loc a) (g_loc b) && (g_dest a =? g_dest b).
 Definition step_eqb (a b : step_obs) : bool :=
   perm_eqb dgram_eqb (o_sent a) (o_sent b) && Bool.eqb (o_raised a) (o_raised b).
 Fixpoint first_diff (n : N) (a b : observation) : option N :=
